@@ -1,7 +1,7 @@
-(* Proofs/RangeProofs.v -- the range reader is indistinguishable from a plain file and only ever
-   requests bytes that exist. *)
+(* Proofs/RangeProofs.v -- the range reader (over the seek / readinto / readall kernels regenerated from the
+   source, Gen/GenRange.v) is indistinguishable from a plain file and only ever requests bytes that exist. *)
 From Coq Require Import List ZArith Bool Lia.
-Require Import DS.Model.Range.
+Require Import DS.Gen.GenRange DS.Model.Range.
 Import ListNotations.
 Open Scope Z_scope.
 
@@ -28,23 +28,41 @@ Section RangeProofs.
   Lemma zfirstn_all : forall (l : list A), zfirstn (zlen l) l = l.
   Proof. intro l. unfold zfirstn, zlen. rewrite Nat2Z.id. apply firstn_all. Qed.
 
+  (* the regenerated seek kernel is the file's seek: same target arithmetic, negative target refused *)
+  Lemma rf_seek_file : forall size pos off w, rf_seek size pos off w = do_seek (A := A) size pos off w.
+  Proof.
+    intros size pos off w. unfold rf_seek, do_seek, gen_rf_seek. destruct w; cbn [whence_code seek_target]; cbv zeta.
+    - change (0 =? 0) with true. cbv iota. destruct (off <? 0); reflexivity.
+    - change (1 =? 0) with false. change (1 =? 1) with true. cbv iota. destruct (pos + off <? 0); reflexivity.
+    - change (2 =? 0) with false. change (2 =? 1) with false. change (2 =? 2) with true. cbv iota. destruct (size + off <? 0); reflexivity.
+    - reflexivity.
+  Qed.
+
+  (* a whence that is none of SEEK_SET / SEEK_CUR / SEEK_END is refused, whatever its value *)
+  Lemma seek_invalid_whence : forall pos size off c, c <> 0 -> c <> 1 -> c <> 2 -> gen_rf_seek pos size off c = None.
+  Proof.
+    intros pos size off c H0 H1 H2. unfold gen_rf_seek.
+    apply Z.eqb_neq in H0. apply Z.eqb_neq in H1. apply Z.eqb_neq in H2. rewrite H0, H1, H2. reflexivity.
+  Qed.
+
   (* one step: same position and observation as the file; requests (at most one) are in range *)
   Lemma rf_step_equiv : forall (content : list A) pos o, 0 <= pos -> wf_rop o ->
     let '(pos', ob, rs) := rf_step content pos o in
     file_step content pos o = (pos', ob) /\ 0 <= pos' /\ Forall (in_range content) rs /\ (length rs <= 1)%nat.
   Proof.
-    intros content pos o Hpos Ho. pose proof (zlen_nonneg content) as Hsz.
-    destruct o as [off w|n| |]; cbn [rf_step file_step wf_rop] in *.
+    intros content pos o Hpos Ho. pose proof (zlen_nonneg content) as Hsz. unfold rf_step.
+    destruct o as [off w|n| |]; cbn [rf_step_on file_step wf_rop] in *.
     - (* Seek *)
-      unfold do_seek. destruct (seek_target (zlen content) pos off w) as [new|]; [|repeat split; auto].
+      rewrite rf_seek_file. unfold do_seek. destruct (seek_target (zlen content) pos off w) as [new|]; [|repeat split; auto].
       destruct (new <? 0) eqn:E; [repeat split; auto|]. apply Z.ltb_ge in E. repeat split; auto.
     - (* ReadInto *)
-      destruct (n =? 0) eqn:En; cbn [orb].
+      unfold gen_rf_readinto. cbv zeta. rewrite Z.geb_leb.
+      destruct (n =? 0) eqn:En; cbn [orb rf_get].
       + apply Z.eqb_eq in En. subst n. unfold zfirstn. simpl. rewrite Z.add_0_r. repeat split; auto.
-      + apply Z.eqb_neq in En. destruct (zlen content <=? pos) eqn:Ep.
+      + apply Z.eqb_neq in En. destruct (zlen content <=? pos) eqn:Ep; cbn [rf_get].
         * apply Z.leb_le in Ep. rewrite (zskipn_past content pos Ep). unfold zfirstn. rewrite firstn_nil. simpl. rewrite Z.add_0_r.
           repeat split; auto.
-        * apply Z.leb_gt in Ep. unfold get_range, server_range.
+        * apply Z.leb_gt in Ep. unfold server_range.
           assert (pos <= Z.min (pos + n) (zlen content) - 1) as Hlast by lia.
           replace ((0 <=? pos) && (pos <=? Z.min (pos + n) (zlen content) - 1) && (pos <? zlen content)) with true
             by (symmetry; rewrite !andb_true_iff, !Z.leb_le, Z.ltb_lt; lia).
@@ -53,9 +71,10 @@ Section RangeProofs.
           rewrite zfirstn_clamp by lia. split; [reflexivity|]. split; [pose proof (zlen_nonneg (zfirstn n (zskipn pos content))); lia|].
           split; [|simpl; lia]. constructor; [|constructor]. unfold in_range. simpl. lia.
     - (* ReadAll *)
-      destruct (zlen content <=? pos) eqn:Ep.
+      unfold gen_rf_readall. rewrite Z.geb_leb.
+      destruct (zlen content <=? pos) eqn:Ep; cbn [rf_get].
       + apply Z.leb_le in Ep. rewrite (zskipn_past content pos Ep). simpl. rewrite Z.add_0_r. repeat split; auto.
-      + apply Z.leb_gt in Ep. unfold get_range, server_range.
+      + apply Z.leb_gt in Ep. unfold server_range.
         replace ((0 <=? pos) && (pos <=? zlen content - 1) && (pos <? zlen content)) with true
           by (symmetry; rewrite !andb_true_iff, !Z.leb_le, Z.ltb_lt; lia).
         replace (zlen content - 1 - pos + 1) with (zlen (zskipn pos content)) by (rewrite zlen_zskipn by lia; lia).
@@ -69,14 +88,26 @@ Section RangeProofs.
     let '(obs, final, rs) := run_rf content pos prog in
     run_file content pos prog = (obs, final) /\ Forall (in_range content) rs /\ (length rs <= length prog)%nat.
   Proof.
-    intros content prog. induction prog as [|o prog IH]; intros pos Hpos Hwf; cbn [run_rf run_file].
+    intros content prog. unfold run_rf. induction prog as [|o prog IH]; intros pos Hpos Hwf; cbn [run_rf_on run_file].
     - repeat split; auto.
     - inversion Hwf as [|? ? Ho Hwf']; subst.
-      pose proof (rf_step_equiv content pos o Hpos Ho) as Hs.
-      destruct (rf_step content pos o) as [[pos' ob] rs]. destruct Hs as [Hf [Hpos' [Hr Hl]]]. rewrite Hf.
-      specialize (IH pos' Hpos' Hwf'). destruct (run_rf content pos' prog) as [[obs final] rs'].
+      pose proof (rf_step_equiv content pos o Hpos Ho) as Hs. unfold rf_step in Hs.
+      destruct (rf_step_on (zlen content) (server_range content) pos o) as [[pos' ob] rs]. destruct Hs as [Hf [Hpos' [Hr Hl]]]. rewrite Hf.
+      specialize (IH pos' Hpos' Hwf'). destruct (run_rf_on (zlen content) (server_range content) pos' prog) as [[obs final] rs'].
       destruct IH as [Hf' [Hr' Hl']]. rewrite Hf'. split; [reflexivity|]. split; [apply Forall_app; split; assumption|].
       rewrite app_length. simpl. lia.
+  Qed.
+
+  (* the reader depends on its source of bytes only through the answers to the ranges it asks for *)
+  Lemma run_rf_on_ext : forall size (f g : Z -> Z -> option (list A)), (forall a b, f a b = g a b) ->
+    forall prog pos, run_rf_on size f pos prog = run_rf_on size g pos prog.
+  Proof.
+    intros size f g Hfg. induction prog as [|o prog IH]; intro pos; cbn [run_rf_on]; [reflexivity|].
+    assert (rf_step_on size f pos o = rf_step_on size g pos o) as E.
+    { destruct o; cbn [rf_step_on]; try reflexivity; unfold rf_get.
+      - destruct (gen_rf_readinto pos size n) as [[a b]|]; [rewrite Hfg|]; reflexivity.
+      - destruct (gen_rf_readall pos size) as [[a b]|]; [rewrite Hfg|]; reflexivity. }
+    rewrite E. destruct (rf_step_on size g pos o) as [[pos' ob] rs]. rewrite IH. reflexivity.
   Qed.
 
   (* a seek whose target is negative is an error and leaves the position alone *)
@@ -84,7 +115,7 @@ Section RangeProofs.
     seek_target (zlen content) pos off w = Some new -> new < 0 ->
     rf_step content pos (Seek off w) = (pos, RErr, []).
   Proof.
-    intros content pos off w new H Hneg. cbn [rf_step]. unfold do_seek. rewrite H.
+    intros content pos off w new H Hneg. unfold rf_step. cbn [rf_step_on]. rewrite rf_seek_file. unfold do_seek. rewrite H.
     apply Z.ltb_lt in Hneg. rewrite Hneg. reflexivity.
   Qed.
 
